@@ -50,7 +50,7 @@ PLAN = {
  "C14": dict(machines=["fe_flat", "fe_hier2", "fe_guards"], profile=dict(PLAIN, subs=0.1), mc=MC_PLAIN, invariants=["P_C01", "P_C02"],
              frontends={"functor": ALL, "basic": ALL, "puml": ["back", "back11", "mp11", "mp11_fct"]},
              title="front-end equivalence and the PlantUML parser"),
- "C15": dict(machines=["defer", "pseudo", "histA", "compl"], profile=dict(MIXED, throws=0.05, copy=0.25, ninst=3), ninst=3,
+ "C15": dict(machines=["defer", "pseudo", "histA", "compl"], profile=dict(MIXED, throws=0.05, copy=0.25, moves=0.3, ninst=3), ninst=3,
              mc=dict(maxcalls=3, budget=0, apis=("start", "pe", "enq", "drain", "copy", "assign"), dirops=(), direvs=(), ninst=2), invariants=["P_C15"],
              title="copies and moves"),
  "C20": dict(machines=["events"], profile=EVENTS, ninst=3, san_machines=["events"], valgrind=True,
